@@ -199,9 +199,13 @@ func (vt *Model) cud(ps int) {
 	if ps == 0 {
 		ps = 1
 	}
+	clamp := row(vt.height() - 1)
+	if vt.cursor.row <= vt.margin.bottom {
+		clamp = vt.margin.bottom
+	}
 	vt.cursor.row += row(ps)
-	if vt.cursor.row > vt.margin.bottom {
-		vt.cursor.row = vt.margin.bottom
+	if vt.cursor.row > clamp {
+		vt.cursor.row = clamp
 	}
 }
 
